@@ -65,6 +65,33 @@
 (*   quadrature nodes times +-1 always reach below -1.  Invariant: every   *)
 (*   pass sees what the forward stored, i.e. delivers u_j . phi/Phi - the  *)
 (*   first pass and every later one.                                       *)
+(*                                                                         *)
+(* "params"  The PARAMETER LATTICE of the one-dimensional likelihoods.     *)
+(*   "for all ... likelihood parameters, batch shapes": every learnable    *)
+(*   parameter (Laplace noise, Student-t noise and deg_free, Beta scale;   *)
+(*   Bernoulli has none) ranges over its whole documented VALID range      *)
+(*   (the default constraint: Positive() = (0, oo), GreaterThan(2) =       *)
+(*   (2, oo)) in orders of magnitude: value = lower bound + 10^e for every *)
+(*   e of Decades (-6 .. 2), as an exact rational.  A case fixes the       *)
+(*   likelihood, how the value gets in (setter / initialize, tensor /      *)
+(*   python float), the layout of the parameter tensor (scalar; one value  *)
+(*   broadcast over a batch; a batch whose members MIX small and large     *)
+(*   values: the exponents of every parameter spread over at least         *)
+(*   MinSpread decades) and the shape of the function values.  The spec    *)
+(*   states what the documented conditional reads from the parameters      *)
+(*   (scale^2 = noise, df = deg_free, concentration1 + concentration0 =    *)
+(*   scale + 2), that this reading is INJECTIVE on the lattice (no floor,  *)
+(*   ceiling or clamp inside the valid range: two different valid values   *)
+(*   never give the same conditional), which batch member every element    *)
+(*   of the result reads (broadcast of [.., 1] against the function        *)
+(*   shape), and the dimensionless observation placements in which the     *)
+(*   rule has no truncation error (Laplace: every node on one side of the  *)
+(*   observation, log density linear; Student-t / Beta: function standard  *)
+(*   deviation a fraction r <= 1/5 of the width of the conditional), so    *)
+(*   that the integrals can be held to closed forms / scale-equivariant    *)
+(*   references at rounding level for every decade.  The same decades are  *)
+(*   laid over the function distribution itself (mean = +-10^em, variance  *)
+(*   = 10^ev) for the parameter-free Bernoulli likelihood (kind "func").   *)
 (***************************************************************************)
 EXTENDS Rational, Shapes, TLC, BackwardOps
 
@@ -75,7 +102,11 @@ CONSTANTS Part,
           ShapeDims, ShapeRank, ShapeLocs,      \* "shapes": axis sizes, maximal rank, numbers of locations
           LocsSettings,  \* "lattice": values of num_gauss_hermite_locs (0 = the setting is not entered)
           BatchShapes,   \* "lattice": batch shapes of the function distribution
-          DataN, NumSamples, DefaultLocs
+          DataN, NumSamples, DefaultLocs,
+          Decades,       \* "params": exponents e of the lattice values lower bound + 10^e
+          MinSpread,     \* "params": a batch mixes small and large values: exponents of every parameter at least this far apart
+          ParamK,        \* "params": members of a batched parameter tensor
+          ParamFloor     \* "params": the MODELLED forward floors every parameter at lower bound + 10^ParamFloor; the code has no floor (an exponent below Decades)
 
 VARIABLES c, out
 vars == <<c, out>>
@@ -236,6 +267,107 @@ LatticeOK ==
 LatticeOut(x) == [path |-> PathOf(x.lik, x.method), integrand |-> IntegrandOf(x.lik, x.method), nodes |-> NodesOf(x),
                   shape |-> ResultShape(x), decided |-> PathOf(x.lik, x.method) # "mc"]
 
+\* ============================== parameter lattice of the one-dimensional likelihoods ==============
+OneDimLiks == {l \in Liks : OneDim(l)}
+ParamsOf(l) == CASE l = "Laplace"  -> {"noise"}
+                 [] l = "StudentT" -> {"noise", "deg_free"}
+                 [] l = "Beta"     -> {"scale"}
+                 [] OTHER          -> {}                          \* BernoulliLikelihood.__init__ takes no argument
+\* the documented valid range is the default constraint: Positive() for noise and scale, GreaterThan(2) for deg_free: (LowerOf(p), oo)
+LowerOf(p)  == IF p = "deg_free" THEN 2 ELSE 0
+Pow10(e)    == IF e >= 0 THEN <<QPow(10, e), 1>> ELSE <<1, QPow(10, -e)>>
+ParamValue(p, e) == RAdd(R(LowerOf(p)), Pow10(e))
+Assign(l)   == [ParamsOf(l) -> Decades]                          \* one exponent per parameter
+
+\* what the documented conditional reads from the parameters (attribute of the returned distribution |-> exact value):
+\*   Laplace(loc = f, scale = sqrt(noise));  StudentT(df = deg_free, loc = f, scale = sqrt(noise));
+\*   Beta(concentration1 = sigmoid(f) s + 1, concentration0 = (1 - sigmoid(f)) s + 1), i.e. concentration1 + concentration0 = s + 2;
+\*   Bernoulli(probs = Phi(f)) reads no parameter
+CondOf(l, a) == CASE l = "Laplace"  -> [scale_sq |-> ParamValue("noise", a["noise"])]
+                  [] l = "StudentT" -> [scale_sq |-> ParamValue("noise", a["noise"]), df |-> ParamValue("deg_free", a["deg_free"])]
+                  [] l = "Beta"     -> [conc_sum |-> RAdd(ParamValue("scale", a["scale"]), R(2))]
+                  [] OTHER          -> [probs |-> <<0, 1>>]
+
+\* the code-shaped reading: forward() uses the parameter as it is.  A "numerical guard" (clamp_min inside forward) is modelled by ParamFloor; with a floor
+\* inside the lattice TLC must find a case whose conditional differs from the documented one (vacuity guard of Decades: checks/c13.py runs it with -4)
+ModelExp(e)       == IF e < ParamFloor THEN ParamFloor ELSE e
+ModelCondOf(l, a) == CondOf(l, [p \in DOMAIN a |-> ModelExp(a[p])])
+ParamsNoFloorOK   == (Part = "params" /\ c.kind = "param") => \A j \in DOMAIN c.members : ModelCondOf(c.lik, c.members[j]) = CondOf(c.lik, c.members[j])
+
+\* how the value reaches the raw parameter: the property setter or Module.initialize, with a tensor or a python float
+\* (`if not torch.is_tensor(value)` is a branch of every setter); a float carries one value for all batch members
+ParamRoutes    == {"setter-tensor", "setter-float", "initialize-tensor", "initialize-float"}
+FloatRoute(r)  == r \in {"setter-float", "initialize-float"}
+\* a batched parameter tensor that mixes small and large values
+ParamSpread(l, q) == \A p \in ParamsOf(l) : \E i, j \in DOMAIN q : q[i][p] - q[j][p] >= MinSpread
+MixedSeqs(l)      == {q \in [1..ParamK -> Assign(l)] : ParamSpread(l, q)}
+
+\* dimensionless observation placements <<m, r, k>>: function mean m, function standard deviation r x W, observation m + k x W (location-scale
+\* families, W = sqrt(noise) the scale of the conditional) resp. <<m, r, y>>: standard deviation r x W with W = 1 / sqrt(1 + s), observation y (Beta)
+NodeReach == 12            \* no node of a rule with at most 40 locations lies further than 12 standard deviations from the mean (sqrt(2) 8.099 = 11.46)
+PlaceOf(l) == CASE l = "Laplace"  -> << <<RQ(3, 10), RQ(1, 10), RQ(13, 10)>>, <<R(-100), RQ(1, 2), RQ(-13, 2)>>, <<Pow10(-6), R(1), R(13)>> >>
+                [] l = "StudentT" -> << <<RQ(3, 10), RQ(1, 20), R(0)>>, <<R(-100), RQ(1, 5), RQ(7, 10)>>, <<Pow10(-6), RQ(1, 10), R(-30)>> >>
+                [] l = "Beta"     -> << <<R(-1), RQ(1, 20), RQ(1, 10)>>, <<RQ(3, 10), RQ(1, 5), RQ(1, 2)>>, <<R(3), RQ(1, 5), RQ(17, 20)>> >>
+                [] OTHER          -> << >>
+RegimeOf(l) == CASE l = "Laplace" -> "one-sided" [] l \in {"StudentT", "Beta"} -> "narrow" [] OTHER -> "none"
+RAbsQ(a)    == IF a[1] < 0 THEN RNeg(a) ELSE a
+PlaceOK(l)  == \A i \in DOMAIN PlaceOf(l) :
+                 LET pl == PlaceOf(l)[i]
+                 IN /\ RLt(RZero, pl[2])
+                    /\ RegimeOf(l) = "one-sided" => RLe(RMul(R(NodeReach), pl[2]), RAbsQ(pl[3]))      \* |y - m| >= NodeReach function standard deviations
+                    /\ RegimeOf(l) = "narrow"    => RLe(pl[2], RQ(1, 5))
+                    /\ l = "Beta" => RLt(RZero, pl[3]) /\ RLt(pl[3], ROne)
+ParamN == 3                \* points per function distribution = placements per likelihood
+
+\* shapes: the parameter tensor has shape batch_shape + [1]; it is broadcast against the function values
+ParamShape(x)  == x.bs \o <<1>>
+ParamResult(x) == ShBc2(ParamShape(x), x.fs)
+ParamMember(x, b) == IF x.bs = <<>> THEN 1 ELSE ShUnb(b, ParamShape(x))[1] + 1      \* which member's parameters element b of the result is built from
+\* the property's domain (cf. FwdInDomain): the parameter tensor adds no axis in front of the function values - the rule views its locations as
+\* [n, 1, .., 1] with the rank of the function distribution, so a likelihood with batch shape [K] needs function values of shape [K, N] or [1, N]
+ParamInDomain(x) == Len(ParamShape(x)) <= Len(x.fs) /\ ShCompatible(<<ParamShape(x), x.fs>>)
+
+ParamCasesOf(l) ==
+  IF ParamsOf(l) = {}
+  THEN {[kind |-> "param", lik |-> l, layout |-> "scalar", route |-> "none", bs |-> <<>>, fs |-> f, members |-> << [p \in {} |-> 0] >>] : f \in {<<ParamN>>, <<ParamK, ParamN>>}}
+  ELSE {[kind |-> "param", lik |-> l, layout |-> "scalar", route |-> r, bs |-> <<>>, fs |-> f, members |-> <<a>>] :
+            r \in ParamRoutes, a \in Assign(l), f \in {<<ParamN>>, <<ParamK, ParamN>>}}
+       \cup {[kind |-> "param", lik |-> l, layout |-> "broadcast", route |-> r, bs |-> <<ParamK>>, fs |-> f, members |-> [j \in 1..ParamK |-> a]] :
+            r \in {rr \in ParamRoutes : FloatRoute(rr)}, a \in Assign(l), f \in {<<ParamK, ParamN>>, <<1, ParamN>>}}
+       \cup {[kind |-> "param", lik |-> l, layout |-> "batch", route |-> r, bs |-> <<ParamK>>, fs |-> f, members |-> q] :
+            r \in {rr \in ParamRoutes : ~FloatRoute(rr)}, q \in MixedSeqs(l), f \in {<<ParamK, ParamN>>, <<1, ParamN>>}}
+\* the same decades laid over the function distribution (the "parameters" of the parameter-free Bernoulli likelihood): mean sg 10^em, variance 10^ev
+FuncCases  == [kind : {"func"}, em : Decades, sg : {-1, 1}, ev : Decades]
+ParamCases == UNION {ParamCasesOf(l) : l \in OneDimLiks} \cup FuncCases
+
+ParamsOK ==
+  (Part = "params" /\ c.kind = "param") =>
+    LET l == c.lik
+    IN /\ \A j \in DOMAIN c.members : \A p \in ParamsOf(l) :
+            LET a == c.members[j]
+            IN /\ RLt(R(LowerOf(p)), ParamValue(p, a[p]))                                      \* every lattice value is valid
+               \* no floor / ceiling / clamp inside the valid range: another valid value of p gives another conditional
+               /\ \A e2 \in Decades \ {a[p]} : CondOf(l, [a EXCEPT ![p] = e2]) # CondOf(l, a)
+       /\ c.layout = "batch" => ParamSpread(l, c.members)
+       /\ c.layout = "broadcast" => \A j \in DOMAIN c.members : c.members[j] = c.members[1]
+       /\ FloatRoute(c.route) => c.layout # "batch"
+       /\ PlaceOK(l) /\ Len(PlaceOf(l)) \in {0, ParamN}
+       /\ ParamInDomain(c)
+       \* index map: element b of the result reads the function value b (un-broadcast) and the parameters of exactly one member
+       /\ ParamResult(c) = ShBroadcastAll(<<ParamShape(c), c.fs>>)
+       /\ \A b \in ShIndices(ParamResult(c)) :
+            /\ ParamMember(c, b) \in DOMAIN c.members
+            /\ ShUnbSet(b, ParamShape(c)) = {IF c.bs = <<>> THEN <<0>> ELSE <<ParamMember(c, b) - 1, 0>>}
+FuncOK == (Part = "params" /\ c.kind = "func") => RLt(RZero, Pow10(c.ev))
+
+ParamOut(x) ==
+  IF x.kind = "func" THEN [m |-> RMul(R(x.sg), Pow10(x.em)), v |-> Pow10(x.ev)]
+  ELSE [values |-> [j \in DOMAIN x.members |-> [p \in ParamsOf(x.lik) |-> ParamValue(p, x.members[j][p])]],
+        cond   |-> [j \in DOMAIN x.members |-> CondOf(x.lik, x.members[j])],
+        pshape |-> ParamShape(x), shape |-> ParamResult(x),
+        reads  |-> {<<b, ParamMember(x, b), ShUnb(b, x.fs)>> : b \in ShIndices(ParamResult(x))},
+        regime |-> RegimeOf(x.lik), place |-> PlaceOf(x.lik), reach |-> NodeReach]
+
 \* ============================== repeated differentiation of log_normal_cdf ========================
 \* zc: class of the argument tensor.  "tail": every entry below -1; "mixed": entries of all three branches; "notail": no entry below -1
 \* (LogNormalCDF.forward then stores no numerator / denominator).  For the Bernoulli route the argument is (2y - 1)(m + sqrt(2v) t_i) over the
@@ -266,11 +398,13 @@ Init ==
               [] Part = "rule"    -> {[n |-> n, mn |-> i.mn, sn |-> i.sn, dd |-> i.dd] : n \in 1..3, i \in RuleLattice}
               [] Part = "shapes"  -> ShapeCases
               [] Part = "lattice" -> LatticeCells
+              [] Part = "params"  -> ParamCases
               [] Part = "rediff"  -> RediffCases)
   /\ out = (CASE Part = "moments" -> MomentsOut(c)
               [] Part = "rule"    -> RuleOut(c)
               [] Part = "shapes"  -> ShapesOut(c)
               [] Part = "lattice" -> LatticeOut(c)
+              [] Part = "params"  -> ParamOut(c)
               [] Part = "rediff"  -> RediffOut(BWStart("lncdf", RediffTail(c))))
 Next == IF Part = "rediff" THEN RediffNext ELSE UNCHANGED vars
 Spec == Init /\ [][Next]_vars
